@@ -10,7 +10,7 @@ from drivers import gwcommon as gc
 from drivers import gwmodel, gwprograms
 from sim import gwrun
 
-LINE_FUNCS = ["_thread_receiver", "_finished_receiving", "_local_close", "_no_longer_opened", "from_io", "read"]
+LINE_FUNCS = ["_thread_receiver", "_finished_receiving", "_local_close", "_no_longer_opened", "from_io", "read", "new", "newchannel"]
 
 
 def _loss_job(job):
